@@ -28,6 +28,13 @@ type rawDump struct {
 	Extra    []string // unexpected things (tables without mailbox, unparsable values)
 }
 
+func (m *idmap) lookupMsg(id string) (int, bool) {
+	m.mu.Lock()
+	defer m.mu.Unlock()
+	i, ok := m.msgIdx[id]
+	return i, ok
+}
+
 func openRaw(path string) (*sql.DB, error) {
 	return sql.Open("sqlite3", fmt.Sprintf("file:%v?mode=ro&_journal=WAL", url.PathEscape(path)))
 }
@@ -85,7 +92,7 @@ func (m *idmap) dumpRaw(raw *sql.DB) (*rawDump, error) {
 		if err := r.Scan(&id, &rem, &del); err != nil {
 			return err
 		}
-		i, ok := m.msgIdx[id]
+		i, ok := m.lookupMsg(id)
 		if !ok {
 			d.Extra = append(d.Extra, "unknown message id "+id)
 			i = -1
@@ -100,7 +107,7 @@ func (m *idmap) dumpRaw(raw *sql.DB) (*rawDump, error) {
 		if err := r.Scan(&id, &v); err != nil {
 			return err
 		}
-		i, ok := m.msgIdx[id]
+		i, ok := m.lookupMsg(id)
 		if !ok {
 			d.Extra = append(d.Extra, "flag row for unknown message "+id)
 			i = -1
@@ -116,7 +123,7 @@ func (m *idmap) dumpRaw(raw *sql.DB) (*rawDump, error) {
 		if err := r.Scan(&id, &b); err != nil {
 			return err
 		}
-		i, ok := m.msgIdx[id]
+		i, ok := m.lookupMsg(id)
 		if !ok {
 			i = -1
 		}
@@ -164,7 +171,7 @@ func (m *idmap) dumpRaw(raw *sql.DB) (*rawDump, error) {
 			if err := r.Scan(&uid, &del, &rec, &id, &rem); err != nil {
 				return err
 			}
-			i, ok := m.msgIdx[id.String]
+			i, ok := m.lookupMsg(id.String)
 			if !ok {
 				i = -1
 			}
